@@ -18,6 +18,8 @@ def sh(cmd, **kw):
 
 
 def main():
+    import signal
+    signal.signal(signal.SIGTERM, lambda *a: sys.exit(3))   # so that `finally` restores /repo
     pid, src = sys.argv[1], sys.argv[2].rstrip("/")
     checks = [pid]
     name = os.path.basename(src)
@@ -48,7 +50,12 @@ def main():
     results = {}
     try:
         for c in checks:
-            out = sh([sys.executable, os.path.join(V, "run_check.py"), c], cwd=V, timeout=3600)
+            try:
+                out = sh([sys.executable, os.path.join(V, "run_check.py"), c], cwd=V, timeout=3000)
+            except subprocess.TimeoutExpired:
+                results[c] = {"exit": "timeout", "violations": 0, "signatures": [], "last_line": "check did not finish within 3000 s"}
+                print(c, "TIMEOUT")
+                continue
             lines = out.stdout.strip().split("\n")
             viol = [l for l in lines if l.startswith("VIOLATION")]
             sigs = []
@@ -65,7 +72,7 @@ def main():
         for p, t in saved.items():
             open(p, "w").write(t)
         shutil.rmtree(os.path.join(V, "replays"), ignore_errors=True)
-    caught = [c for c, r in results.items() if r["exit"] != 0]
+    caught = [c for c, r in results.items() if r["exit"] not in (0, "timeout")]
     json.dump({"property": pid, "mutation": name, "checks_run": checks, "caught_by": caught, "results": results},
               open(os.path.join(dst, "result.json"), "w"), indent=1)
     print("CAUGHT by", caught if caught else "NOTHING")
